@@ -30,12 +30,17 @@ def defects(rng):
         ("unsupported colour syntax in a gradient stop", [f for f in VECTOR if "colr" in f], [("emoji_u1f9d0.svg", (g % "").replace('stop-color="red"', 'stop-color="rgb(100%, 0%, 0%)"'))], []),
         ("hex colour with a digit too many", [f for f in VECTOR if "colr" in f or f.startswith("picosvg")], [("emoji_u1f9d0.svg", good(1, "#FF00000"))], []),
         ("hex colour with a digit too many in a gradient stop", [f for f in VECTOR if "colr" in f and not f.endswith("_0")], [("emoji_u1f9d0.svg", (g % "").replace('stop-color="red"', 'stop-color="#FF00000"'))], []),
+        ("unparsable colour on a fully transparent gradient stop", [f for f in VECTOR if ("colr" in f and not f.endswith("_0")) or f.startswith("picosvg")],
+         [("emoji_u1f9d0.svg", (g % "").replace('stop-color="red"', 'stop-color="notacolour" stop-opacity="0"'))], []),
         ("unknown spreadMethod", [f for f in VECTOR if "untouched" not in f and f != "glyf"], [("emoji_u1f9d0.svg", g % 'spreadMethod="bogus"')], []),
         ("palette index conflict", [f for f in VECTOR if "colr" in f], [("emoji_u1f9d0.svg", good(1, "var(--color1, red)")), ("emoji_u1f9d1.svg", good(2, "var(--color1, blue)"))], []),
         ("palette index conflict between a fill and a gradient stop", [f for f in VECTOR if "colr" in f and not f.endswith("_0")],
          [("emoji_u1f9d0.svg", good(1, "var(--color1, red)")), ("emoji_u1f9d1.svg", (g % "").replace('stop-color="blue"', 'stop-color="var(--color1, blue)"'))], []),
         ("palette index conflict between two gradient stops", [f for f in VECTOR if "colr" in f and not f.endswith("_0")],
          [("emoji_u1f9d0.svg", (g % "").replace('stop-color="red"', 'stop-color="var(--color2, red)"')), ("emoji_u1f9d1.svg", (g % "").replace('stop-color="blue"', 'stop-color="var(--color2, blue)"').replace("M10,10", "M12,10"))], []),
+        # F39 (known): one palette entry claimed with currentColor as its default and with a colour
+        ("palette index conflict between currentColor and a colour", [f for f in VECTOR if "colr" in f],
+         [("emoji_u1f9d0.svg", good(1, "var(--color1, currentColor)")), ("emoji_u1f9d1.svg", good(2, "var(--color1, red)"))], []),
         ("bitmap too big for CBDT", ["cbdt"], [("emoji_u1f9d0.svg", good(1))], ["--bitmap_resolution", "300"]),
     ]
 
@@ -80,7 +85,8 @@ def run_cli(report, n, rng):
         report.hist("defect", r["defect"])
         report.hist("format", r["format"])
         if r["exit"] == 0 or r["fresh_font"]:
-            if report_failure(report, f"accepted_{i}", dict(kind="e2e-cli", case=r, problem="defective input accepted: exit 0 and/or a fresh output font")):
+            fid = "F39-palette-entry-claimed-by-currentcolor" if r["defect"] == "palette index conflict between currentColor and a colour" else None
+            if report_failure(report, f"accepted_{i}", dict(kind="e2e-cli", case=r, problem="defective input accepted: exit 0 and/or a fresh output font"), fid):
                 return
     report.sample({k: results[0][k] for k in ("defect", "format", "files", "exit", "fresh_font")})
     # a control: the same harness on valid input must succeed (so 'exit != 0' is not vacuous)
